@@ -15,7 +15,7 @@ ev = C.read_ndjson(w + '/t.ndjson')
 bi = -1
 for e in ev:
     if e['ev'] == 'New':
-        bi += 1; e['expect'] = behs[bi].get('expect', {})
+        bi += 1; e['expect'] = behs[bi].get('expect', {}); e['pipelined'] = 1 if behs[bi].get('pipelined') else 0
 open(w + '/t2.ndjson', 'w').write("\n".join(json.dumps(e) for e in ev) + "\n")
 v = C.tlc_trace(w, "Trace_Signalling.tla", "Trace_Signalling.cfg", w + '/t2.ndjson', "trace_signalling.ndjson")
 print("lines", v.lines, "bads", v.bads)
